@@ -21,7 +21,9 @@ package main
 
 import (
 	"bytes"
+	"encoding/hex"
 	"fmt"
+	"reflect"
 	"strconv"
 	"strings"
 	"time"
@@ -620,4 +622,76 @@ func histReplay(ctx *Ctx, l string) {
 	}
 	e := &cacheEngine{ctx: ctx}
 	ctx.Add(l, e.histRun(be, h, l, true).String(), true, "C20")
+}
+
+// decoderReuseObservation — INFORMATION. A ttlv.Decoder can decode several top-level values one after the other
+// (`dec.Any(&a); dec.TagAny(tag, &b)` over concatenated encodings); it has no Clear, so the version set by the first
+// message's header stays for the second value, exactly like an encoder that is not cleared. The library never does
+// this and C20 does not speak about it; what happens is recorded: `cache.decoder-reuse.same-as-fresh` /
+// `.version-leak-observed` (a header-less value whose version-gated elements are missing is accepted under the
+// leaked 1.0 version and refused by a new decoder).
+func (e *cacheEngine) decoderReuseObservation() {
+	first := e.decInput(1, "ttlv") // the 1.0 request message
+	if first == "" {
+		return
+	}
+	b1, _ := hex.DecodeString(first)
+	for i := 6; i < len(e.specs); i++ {
+		if e.specs[i].Kind == "negdur" {
+			continue
+		}
+		inputs := map[int]string{0: e.decInput(i, "ttlv")}
+		for k, h := range e.muts[i] {
+			inputs[k+1] = h
+		}
+		for v, h := range inputs {
+			want, ok := e.ref[cacheRefKey{"dec", "ttlv", i, v}]
+			if h == "" || !ok {
+				continue
+			}
+			b2, _ := hex.DecodeString(h)
+			tg := e.msgs[i].tg
+			got, p := guard("decoder-reuse", func() string {
+				dec, err := ttlv.NewTTLVDecoder(append(append([]byte{}, b1...), b2...))
+				if err != nil {
+					return "err"
+				}
+				var req kmip.RequestMessage
+				if err := dec.Any(&req); err != nil {
+					return "first-err"
+				}
+				var ptr reflect.Value
+				if tg.ty.Kind() == reflect.Pointer {
+					ptr = reflect.New(tg.ty.Elem())
+				} else {
+					ptr = reflect.New(tg.ty)
+				}
+				if tg.tag == 0 {
+					err = dec.Any(ptr.Interface())
+				} else {
+					err = dec.TagAny(tg.tag, ptr.Interface())
+				}
+				if err != nil {
+					return "err"
+				}
+				val := ptr
+				if tg.ty.Kind() != reflect.Pointer {
+					val = ptr.Elem()
+				}
+				s, rerr := e.s.Render(val, e.s.Dyns[tg.dyn].Kind)
+				if rerr != nil {
+					return "unrenderable"
+				}
+				return "ok " + s
+			})
+			switch {
+			case p != "":
+				e.ctx.Res.Count("cache.decoder-reuse.panic")
+			case got == want:
+				e.ctx.Res.Count("cache.decoder-reuse.same-as-fresh")
+			default:
+				e.ctx.Res.Count("cache.decoder-reuse.version-leak-observed")
+			}
+		}
+	}
 }
